@@ -174,7 +174,7 @@ def run_tlc(module, cfg, workdir, workers=None, env=None, timeout=600, coverage=
     else:
         cfg_path = cfg if os.path.isabs(cfg) else os.path.join(SPEC, cfg)
     w = workers or NCPU
-    cmd = ["java", "-XX:+UseParallelGC", "-Xmx8g", "-Djava.io.tmpdir=" + tmpd]
+    cmd = ["java", "-XX:+UseParallelGC", "-XX:ParallelGCThreads=2", "-Xmn256m", "-Xmx8g", "-Djava.io.tmpdir=" + tmpd]
     cmd += list(java_opts or [])
     cmd += ["-cp", TLA_CP, "tlc2.TLC", "-workers", str(w), "-metadir", os.path.join(meta, "states"),
             "-noGenerateSpecTE", "-config", cfg_path]
